@@ -43,11 +43,14 @@ man = {
     "setup_cmd": "./setup.sh",
     "hooks": {"guard": "INSIGHTS_CORE_VERIF", "enable": "no hooks or instrumentation in /repo: checks read /repo's source directly (VERIF_REPO overrides the path)",
               "baseline_off_cmd": "cd /repo && /venv/bin/python -m pytest -ra -q -p no:cacheprovider --timeout=900 --continue-on-collection-errors",
-              "source_commits": fixes, "add_only": True},
+              "source_commits": [], "add_only": True},
     "engines": [{"name": "pyvc", "path": "pyvc/", "serves_properties": [c["property_id"] for c in checks],
                  "kind_free_text": "AST-to-SMT verification-condition generator for a Python subset with sidecar contracts; z3 5.1 API + cvc5 CLI"}],
     "checks": checks,
-    "notes": "source_commits lists the unguarded fix: commits made in /repo (genuine defects found by refuted obligations); there are no guarded hooks.",
+    "notes": "There are no guarded hooks or instrumentation commits in /repo (hooks.source_commits is empty). Unguarded 'fix:' commits in /repo "
+             "(genuine defects found by refuted obligations / the bounded stand-ins, each recorded as 'fixed:' in KNOWN_FINDINGS.txt): " + ", ".join(fixes) + ". "
+             "Exit codes of ./check: 0 held, 1 violation (VIOLATION line), 2 undecided, 3 checker error (source outside the accepted subset, vacuity guard, "
+             "bounded stand-in crashed).",
     "not_applicable": na,
 }
 json.dump(man, open(os.path.join(HERE, "MANIFEST.json"), "w"), indent=1)
